@@ -51,7 +51,44 @@ WRITER_LOCKERS = {
 }
 
 
+WRITE_HELPERS = {}   # derived per fact file: in-crate function -> body path, see derive_write_helpers
+
+
+def derive_write_helpers(facts):
+    """In-crate functions (other than the frame writers of io/async_io and the connection functions themselves) whose
+    body performs a write primitive, directly or through another such helper.  A connection function that was split
+    into helpers keeps its obligations: a call of a helper is a frame write whose Result must be tested."""
+    conn = {p[:-len("::{closure#0}")] if p.endswith("::{closure#0}") else p for p, _, _ in CONN}
+    cand = {}
+    for path, b in facts.bodies.items():
+        base = path[:-len("::{closure#0}")] if (path.endswith("::{closure#0}") and b.kind == "coroutine") else path
+        if "{closure" in base or base in conn or base.startswith(("io::", "async_io::")):
+            continue
+        if b.kind not in ("fn", "method", "coroutine"):
+            continue
+        cand[base] = b
+    helpers = {}
+    changed = True
+    while changed:
+        changed = False
+        for base, b in cand.items():
+            if base in helpers:
+                continue
+            for i, t in b.calls():
+                if _is_base_write_prim(t) or t["callee"]["path"] in helpers:
+                    helpers[base] = b.path
+                    changed = True
+                    break
+    return helpers
+
+
 def is_write_prim(t):
+    if _is_base_write_prim(t):
+        return True
+    return t["callee"]["path"] in WRITE_HELPERS
+
+
+def _is_base_write_prim(t):
     c = t["callee"]
     if callee_matches(c, *WRITE_FN_PATS):
         return True
@@ -120,12 +157,24 @@ def result_layers(b, sym, wbb, wterm):
     return max(best, 1)
 
 
-def analyse_conn(facts, R, path, role, is_async):
+def analyse_conn(facts, R, path, role, is_async, floor=2):
     b = facts.body(path)
     fn = b.path
     sym = Sym(b)
     prims = [(i, t) for i, t in b.calls() if is_write_prim(t)]
-    R.floor("no-write-after-failed-write", len(prims), 2, "frame write primitives in " + fn)
+    # floor counts the primitives of the function together with those of the write helpers it delegates to
+    total, seen, work = 0, set(), [path]
+    while work:
+        cur = work.pop()
+        if cur in seen:
+            continue
+        seen.add(cur)
+        for i, t in facts.body(cur).calls():
+            if _is_base_write_prim(t):
+                total += 1
+            elif t["callee"]["path"] in WRITE_HELPERS:
+                work.append(WRITE_HELPERS[t["callee"]["path"]])
+    R.floor("no-write-after-failed-write", total, floor, "frame write primitives in " + fn + " (incl. its write helpers)")
     prim_pts = [term_pt(b, i) for i, _ in prims]
     for i, t in prims:
         nm = t["callee"]["path"].rsplit("::", 1)[-1]
@@ -177,8 +226,22 @@ def run(facts, R):
     has_ws = "websocket" in facts.features
     # ------------------------------------------------------------------ TCP connection functions
     info = {}
+    WRITE_HELPERS.clear()
+    WRITE_HELPERS.update(derive_write_helpers(facts))
+    used_helpers = set()
     for path, role, is_async in CONN:
         info[path] = analyse_conn(facts, R, path, role, is_async)
+        work = [path]
+        while work:
+            cur = work.pop()
+            for i, t in facts.body(cur).calls():
+                hp = WRITE_HELPERS.get(t["callee"]["path"])
+                if hp and hp not in used_helpers:
+                    used_helpers.add(hp)
+                    work.append(hp)
+    for hp in sorted(used_helpers):
+        R.note("write helper of a connection function analysed with the same rule: " + hp)
+        analyse_conn(facts, R, hp, "helper", facts.body(hp).kind == "coroutine", floor=1)
 
     # ---- one-lock-per-frame: clients
     for path, role, is_async in CONN:
